@@ -56,17 +56,17 @@ PROPS = {
     "C09": {
         "harnesses": [{"name": "stack", "quick": 800000, "thorough": 4000000, "fuzz_runs": 400000,
                        "extra": {"quick": [["elim2", 400, "1,2,4,7,13,15", "0,1"]], "thorough": [["elim2", 400, "all", "all"]]}, "weight": 3},
-                      {"name": "fc_containers", "variants": list(range(25, 36)), "quick": 12000, "thorough": 240000, "fuzz_runs": 40000, "weight": 1}],
+                      {"name": "fc_containers", "variants": list(range(25, 36)), "quick": 12000, "thorough": 120000, "fuzz_runs": 40000, "weight": 1}],
         "libs": BOOST,
         "assumptions": [SC, FC_ASSUME, "Oracle: Wing-Gong linearizability against a LIFO model incl. the final drain; item accounting; intrusive nodes disposed exactly once; the elimination random engine is replaced by a case-seeded one through the documented trait."],
     },
     "C10": {
-        "harnesses": [{"name": "fc_containers", "variants": list(range(36, 44)), "quick": 24000, "thorough": 400000, "fuzz_runs": 60000}],
+        "harnesses": [{"name": "fc_containers", "variants": list(range(36, 44)), "quick": 24000, "thorough": 240000, "fuzz_runs": 60000}],
         "libs": BOOST, "assumptions": [SC, FC_ASSUME],
     },
     "C11": {
         "harnesses": [{"name": "mspq", "quick": 640000, "thorough": 3200000, "fuzz_runs": 400000, "weight": 3},
-                      {"name": "fc_containers", "variants": list(range(44, 49)), "quick": 12000, "thorough": 240000, "fuzz_runs": 40000, "weight": 1}],
+                      {"name": "fc_containers", "variants": list(range(44, 49)), "quick": 12000, "thorough": 120000, "fuzz_runs": 40000, "weight": 1}],
         "libs": BOOST, "assumptions": [SC, FC_ASSUME, "MSPriorityQueue: conservation, conservative push-failure/empty-pop rules, drain order; linearizability against a bounded max-priority queue for every history in which no push overlaps a pop (phased programs and qualifying free ones)."],
     },
     "C12": {
@@ -140,7 +140,7 @@ PROPS = {
         "assumptions": [SC, "Oracle: occupancy counters and owner ids around every critical section, well-formed programs by construction (unlock only by the holder, LIFO, ordered acquisition for non-reentrant kinds); pool_monitor: lock pointer stable while held, distinct for simultaneously held nodes, refcount bounds, check_free() at quiescence."],
     },
     "C23": {
-        "harnesses": [{"name": "fckernel", "quick": 48000, "thorough": 300000, "fuzz_runs": 40000}],
+        "harnesses": [{"name": "fckernel", "quick": 48000, "thorough": 200000, "fuzz_runs": 40000}],
         "libs": BOOST,
         "assumptions": [SC, "A minimal flat-combining container over the real kernel with a tracking allocator for publication records, a holder-recording lock wrapper and plain-counter statistics; client threads (and children they spawn) are real pthreads whose exit runs the kernel's TLS cleanup under the scheduler."],
     },
@@ -176,7 +176,7 @@ PROPS = {
     "C06": {
         "harnesses": [
             {"name": "queue_ms", "quick": 800000, "thorough": 4000000, "fuzz_runs": 600000, "weight": 2},
-            {"name": "fc_containers", "variants": list(range(0, 25)), "quick": 18000, "thorough": 400000, "fuzz_runs": 60000, "weight": 2},
+            {"name": "fc_containers", "variants": list(range(0, 25)), "quick": 18000, "thorough": 200000, "fuzz_runs": 60000, "weight": 2},
         ],
         "libs": BOOST,
         "assumptions": [SC, "Oracle: Wing-Gong linearizability search against a sequential FIFO model, including the final drain; intrusive nodes: disposer exactly once per node after SMR destruction, link part ASan-poisoned after disposal."],
